@@ -17,8 +17,10 @@ ASSUMPTIONS = ["seed peaks are an environment answer chosen by the harness (the 
 
 STEP = 10
 # (sp, dp, su, ms, bs, sj, ss)
-CONFIGS = [(100, 1, -25, 100, 120, 1, 0), (100, 1, -25, 150, 60, 1, 0), (100, 1, 0, 100, 120, 1, 0),
-           (100, 1, -25, 100, 120, 1, 1), (100, 1, -25, 100, 120, 0, 0)]
+# the second configuration has minScore below a single off-diagonal pair's score, so one-pair segments from neighbouring peaks
+# exist and collide (with ms = sp only perfect pairs form one-pair segments - the first space explored missed that, see DESIGN 5/F10)
+CONFIGS = [(100, 1, -25, 100, 120, 1, 0), (100, 1, -25, 60, 120, 1, 0), (100, 1, -25, 150, 60, 1, 0), (100, 1, 0, 100, 120, 1, 0),
+           (100, 1, -25, 100, 120, 1, 1), (100, 1, -25, 100, 120, 0, 0), (100, 5, -25, 60, 30, 1, 0)]
 
 
 @core.guarded(lambda cfg, maxd, rpos, qpos, shift, peaks, rev, *a: dict(config=list(cfg), maxDistance=maxd, reference=rpos, query=qpos, shift=shift, peaks=peaks, reverse=rev))
